@@ -29,7 +29,9 @@ COMPONENTS = {
              "run_query (both back ends)", "NostrQuery", "asyncio tasks/queues on the simulated loop"],
     "stub": ["websocket transport (three callables)", "LMDB engine (fake)", "threads (actors)"],
 }
-ASSUMPTIONS = ["frames failing the shape gate (not an array, <2 elements, unknown verb) are dropped by "
+ASSUMPTIONS = ["in the 10% of runs with injected SQL errors a stored query may end early: its EOSE is then not "
+               "required to be complete (every other clause is still judged)",
+               "frames failing the shape gate (not an array, <2 elements, unknown verb) are dropped by "
                "design and are not REQs", "events already queued for a subscription may still be sent "
                "after its CLOSE was processed; what must not happen is delivery of events accepted after "
                "that, or any delivery after the next quiescent point"]
@@ -89,6 +91,7 @@ def gen(rng, knobs):
         clients.append({"script": script, "slow": rng.random() < 0.25})
     return {"backend": backend, "clients": clients, "preload": pre, "subscription_limit": limit,
             "p_buffered": rng.choice([0.0, 0.0, 0.3, 0.8]),
+            "faults": sorted(rng.sample(range(3, 90), rng.choice([1, 2]))) if (backend == "sql" and rng.random() < 0.2) else [],
             "sched": {"client": rng.choice([0.5, 1.0, 3.0]), "sql": rng.choice([0.3, 1.0, 3.0]),
                       "pool": rng.choice([0.3, 1.0, 3.0]), "writer": rng.choice([0.2, 1.0, 3.0]),
                       "wsend": rng.choice([0.2, 1.0]), "ready": rng.choice([1.0, 4.0, 8.0])}}
@@ -253,7 +256,7 @@ def check_client(c, world, case, ev_times, ev_done, submissions, quiet_points, v
                     truthful = True
                     break
                 worst = (fr["msg"][:3], missing[:3], len(owed))
-            if not truthful:
+            if not truthful and not case.get("faults"):
                 viol.append({"cls": "eose-before-stored-events", "sig": "eose-before-stored-events|%s|reqs=%d" % (
                     backend, min(len(req_frs), 2)),
                              "detail": {"sub": sid, "req": worst[0], "owed": worst[2],
@@ -331,6 +334,11 @@ def run(case, sim):
             if len(subs) > case["subscription_limit"] and not over_limit:
                 over_limit.append((idx, list(subs)))
     w.registry_hook = hook
+
+    async def arm(world):
+        for n in case.get("faults", []):
+            sim.sql.global_faults[sim.sql.call_no + n] = "disk I/O error"
+    w.before_clients = arm
     w.run()
     # submission times of every event id (first delivery of an EVENT command carrying it)
     ev_times = {}
